@@ -25,6 +25,7 @@ func init() {
 type scriptStep struct {
 	n   int  // bytes to deliver in this call (capped by the request)
 	err bool // return an error together with (or instead of) the bytes
+	eof int  // which error: 0 a custom error, 1 io.EOF, 2 io.ErrUnexpectedEOF
 }
 
 type scriptedReader struct {
@@ -55,6 +56,12 @@ func (s *scriptedReader) Read(p []byte) (int, error) {
 	var err error
 	if st.err {
 		e, err = 1, errScripted
+		switch st.eof {
+		case 1:
+			err = io.EOF
+		case 2:
+			err = io.ErrUnexpectedEOF
+		}
 	}
 	s.log = append(s.log, [3]int{len(p), n, e})
 	return n, err
@@ -106,20 +113,20 @@ func driveNonce(c *ctx) {
 		c.E("sig.Raw", "d", h32(d), "digest", hx(digest), "rng", "reader", "reads", rawJSON(readsToJSON(rd.log)), "entropy", ent,
 			"ok", err == nil, "r", scHexOr(r), "s", scHexOr(s), "v", int(v))
 	}
-	whole := []scriptStep{{32, false}}
+	whole := []scriptStep{{n: 32, err: false}}
 	byteAtATime := make([]scriptStep, 32)
 	for i := range byteAtATime {
-		byteAtATime[i] = scriptStep{1, false}
+		byteAtATime[i] = scriptStep{n: 1, err: false}
 	}
 	chunkings := [][]scriptStep{
 		whole, byteAtATime,
-		{{7, false}, {8, false}, {15, false}, {2, false}},
-		{{16, false}, {16, false}},
-		{{31, false}, {1, false}},
-		{{0, false}, {0, false}, {32, false}},
-		{{31, false}, {1, true}},  // error delivered together with the last chunk: still a full read
-		{{32, true}},              // all bytes plus an error
-		{{10, false}, {100, false}}, // reader offering more than asked
+		{{n: 7, err: false}, {n: 8, err: false}, {n: 15, err: false}, {n: 2, err: false}},
+		{{n: 16, err: false}, {n: 16, err: false}},
+		{{n: 31, err: false}, {n: 1, err: false}},
+		{{n: 0, err: false}, {n: 0, err: false}, {n: 32, err: false}},
+		{{n: 31, err: false}, {n: 1, err: true}},  // error delivered together with the last chunk: still a full read
+		{{n: 32, err: true}},              // all bytes plus an error
+		{{n: 10, err: false}, {n: 100, err: false}}, // reader offering more than asked
 	}
 	keys := []*big.Int{big.NewInt(1), add(bigN, -1)}
 	for i := 0; i < c.scale(4, 30); i++ {
@@ -157,9 +164,13 @@ func driveNonce(c *ctx) {
 	signWith(keys[2], append(append([]byte{}, digests[2]...), 1, 2, 3), entropies[3], whole)
 	// failing readers: error after j bytes for every j in 0..31 (no signature), in one or several chunks
 	for j := 0; j <= 31; j++ {
-		signWith(keys[j%len(keys)], digests[j%len(digests)], entropies[3], []scriptStep{{j, true}})
+		signWith(keys[j%len(keys)], digests[j%len(digests)], entropies[3], []scriptStep{{j, true, 0}})
+		// end-of-stream style failures: bytes then io.EOF in the same call, bytes then a separate (0, io.EOF), io.ErrUnexpectedEOF
+		signWith(keys[j%len(keys)], digests[j%len(digests)], entropies[3], []scriptStep{{j, true, 1}})
+		signWith(keys[j%len(keys)], digests[j%len(digests)], entropies[3], []scriptStep{{j, false, 0}, {0, true, 1}})
+		signWith(keys[j%len(keys)], digests[j%len(digests)], entropies[3], []scriptStep{{j, true, 2}})
 		if j > 1 {
-			signWith(keys[j%len(keys)], digests[j%len(digests)], entropies[3], []scriptStep{{j / 2, false}, {j - j/2, false}, {0, true}})
+			signWith(keys[j%len(keys)], digests[j%len(digests)], entropies[3], []scriptStep{{n: j / 2}, {n: j - j/2}, {n: 0, err: true}})
 		}
 	}
 	signWith(keys[0], digests[0][:31], entropies[3], whole) // inadmissible digest: entropy must not even be read
